@@ -5,6 +5,7 @@ Space (explorer I): signal family F (every 4-level sequence of length 3..L, the 
 threshold.  Oracle from the statement: unless the last column's absolute sum is below sift_thresh, the columns sum
 to the input and the last column is non-oscillatory.
 """
+import functools
 import itertools
 import numpy as np
 
@@ -37,6 +38,7 @@ def worker_init():
     _orig['env'] = S.interp_envelope
     _orig['gni'] = S.get_next_imf
 
+    @functools.wraps(_orig['env'])          # (configuration templates are harvested from the live signatures)
     def env(*a, **k):
         r = _orig['env'](*a, **k)
         _state['env_calls'] += 1
@@ -47,6 +49,7 @@ def worker_init():
             _state['last_none'] = _state['last_none'] or r is None
         return r
 
+    @functools.wraps(_orig['gni'])
     def gni(*a, **k):
         _state['env_calls'] = 0
         _state['last_none'] = False
@@ -240,6 +243,27 @@ def check_case(case):
             viols.append((bad[0] + suffix, '%s: %s; extraction paths %s' % (tag, bad[1], paths)))
         elif np.abs(np.asarray(imf)[:, -1]).sum() < thresh:
             classes.add('cut-by-threshold')
+        if case[0] == 'fb' and not bad and case[3] % 4 == 0:
+            # the same decomposition requested in the other documented ways: threshold passed positionally, options
+            # unpacked from a configuration object, the configuration's callable, the signal as a column
+            from emd.sift import get_config
+            try:
+                cfg = get_config('sift')
+                for g_ in ('imf_opts', 'envelope_opts', 'extrema_opts'):
+                    for k_, v_ in o[g_].items():
+                        cfg['%s/%s' % (g_, k_)] = v_
+                ways = (('sift(x, 1e-8, None, ...)', lambda: sift(x.copy(), 1e-8, None, imf_opts=o['imf_opts'], envelope_opts=o['envelope_opts'], extrema_opts=o['extrema_opts'])),
+                        ('sift(x, **config)', lambda: sift(x.copy(), **cfg)), ('config.get_func()(x)', lambda: cfg.get_func()(x.copy())),
+                        ('sift(x[:, None])', lambda: sift(x[:, None].copy(), **o)))
+                for wname, f_ in ways:
+                    alt = np.asarray(f_())
+                    trans += 1
+                    if alt.shape != np.asarray(imf).shape or not np.array_equal(alt, np.asarray(imf)):
+                        b2 = judge(x, alt, thresh, unit)
+                        viols.append(('route:%s' % (b2[0] if b2 else 'differs'), '%s: %s gives %r columns, the keyword call %r%s' % (
+                            tag, wname, alt.shape, np.asarray(imf).shape, '' if not b2 else '; ' + b2[1])))
+            except Exception as e:
+                viols.append(('route:raise:%s' % type(e).__name__, '%s: an alternative call form raised %r' % (tag, e)))
         if case[0] == 'fb-abort' and not bad:
             nlayers = len(paths)
             for when in ('pre', 'post'):
